@@ -127,21 +127,30 @@ func (s *Scheduler) runStage(stage *Stage) error {
 		return s.Schedule(stage.Pipeline)
 	}
 
-	t := stage.Task
-	if stage.Env != nil {
-		if t.Env == nil {
-			t.Env = stage.Env
-		} else {
-			t.Env = t.Env.Merge(stage.Env)
+	if stage.Env != nil || stage.Variables != nil || stage.Dir != "" {
+		// stage overrides apply to a copy owned by this stage, the task itself may be shared
+		// with other stages, other pipelines and direct runs
+		t := *stage.Task
+		if stage.Env != nil {
+			if t.Env == nil {
+				t.Env = stage.Env
+			} else {
+				t.Env = t.Env.Merge(stage.Env)
+			}
 		}
-	}
 
-	if stage.Variables != nil {
-		if t.Variables == nil {
-			t.Variables = stage.Variables
-		} else {
-			t.Variables = t.Env.Merge(stage.Variables)
+		if stage.Variables != nil {
+			if t.Variables == nil {
+				t.Variables = stage.Variables
+			} else {
+				t.Variables = t.Variables.Merge(stage.Variables)
+			}
 		}
+
+		if stage.Dir != "" {
+			t.Dir = stage.Dir
+		}
+		stage.Task = &t
 	}
 
 	return s.taskRunner.Run(stage.Task)
